@@ -9,11 +9,34 @@ use or_poisoned::OrPoisoned;
 use std::sync::{Arc, RwLock, Weak};
 
 /// Handles internal subscription logic for effects.
-#[derive(Debug)]
 pub struct EffectInner {
     pub(crate) dirty: bool,
     pub(crate) observer: Sender,
     pub(crate) sources: SourceSet,
+    /// Lets go of the state the effect's task retains between runs (the value returned by
+    /// the last run). It is called when the effect is disposed: the task itself only ends,
+    /// and drops that state, when the executor polls it the next time, and until then
+    /// whatever the state owns (say, a `RenderEffect` created by the last run) would stay
+    /// alive and could run once more.
+    pub(crate) release: Option<Box<dyn FnOnce() + Send + Sync>>,
+}
+
+impl std::fmt::Debug for EffectInner {
+    fn fmt(&self, f: &mut std::fmt::Formatter<'_>) -> std::fmt::Result {
+        f.debug_struct("EffectInner")
+            .field("dirty", &self.dirty)
+            .field("observer", &self.observer)
+            .field("sources", &self.sources)
+            .finish_non_exhaustive()
+    }
+}
+
+impl Drop for EffectInner {
+    fn drop(&mut self) {
+        if let Some(release) = self.release.take() {
+            release();
+        }
+    }
 }
 
 impl ToAnySubscriber for Arc<RwLock<EffectInner>> {
